@@ -169,9 +169,13 @@ impl SamplerClamp {
         tc: TexCoord,
     ) -> C {
         use crate::math::float::f32;
+        let data = tex.data.as_slice2();
         let u = f32::floor(tc.u().clamp(0.0, tex.w - 1.0)) as u32;
         let v = f32::floor(tc.v().clamp(0.0, tex.h - 1.0)) as u32;
-        tex.data.as_slice2()[[u, v]]
+        // `tex.w - 1.0` is not exact for sizes beyond 2^24 texels
+        let u = u.min(data.width().saturating_sub(1));
+        let v = v.min(data.height().saturating_sub(1));
+        data[[u, v]]
     }
 }
 
